@@ -196,3 +196,24 @@ CHECKS["C06"] = {
         {"name": "validator", "pkg": "pkg/filters/validator", "test": "TestVerifC06", "workers": 4},
     ],
 }
+
+BROKERRIG = ["pkg/object/mqttproxy", "harness/common/mqttproxy"]
+BROKERINSTR = [{"file": "pkg/object/mqttproxy/broker.go", "imports": {"net": "vnet"}, "need_vrt": True,
+                "replace": [{"old": "for clientID, subQoS := range subscribers {",
+                             "new": "for _, clientID := range zzvrt.StringKeys(subscribers, \"sendMsgToClient\") {\n\t\tsubQoS := subscribers[clientID]"}]}]
+
+CHECKS["C15"] = {
+    "level": "model_checking",
+    "technique": "exhaustive enumeration of subscriber populations x QoS x map visiting orders x ack behaviours on the real broker goroutines, run to quiescence on the virtual clock of a testing/synctest bubble",
+    "level_text": "real Broker (real newBroker, in-memory listener) with raw MQTT clients over net.Pipe: every population of 2-3 subscribers (filters t,+,#,non-matching x QoS 0/1) x message QoS x EVERY order in which "
+                  "sendMsgToClient visits the subscriber map; QoS1 retransmission every 200 ms until PUBACK and never after, for ack after 0/1/3 periods or never; QoS0 bursts; client QoS1 PUBLISH with publish limiter and dropping pipeline",
+    "level_note": "net of broker.go redirected to an in-memory listener; the range over the subscriber map in sendMsgToClient rewritten to an explorer-chosen key order (if the site is not found the check "
+                  "reports an instrumentation gap and runs with sorted order); goroutines run free between quiescent points (no interleaving control in this check)",
+    "rule": "choice tree: filter and QoS of each subscriber, message QoS, visiting order, ack delay, burst size, limiter/drop/gap; distinct_nontrivial = distinct outcome classes",
+    "explanation": "states = executions, each run on a fresh real broker to quiescence (synctest.Wait) after every event",
+    "bounds": {"quick": "2-3 subscribers, 5 resend periods", "thorough": "same"},
+    "assumptions": ["synctest.Wait quiescence: every goroutine of the broker is blocked on a channel/timer/pipe"],
+    "units": [
+        {"name": "mqttproxy", "pkg": "pkg/object/mqttproxy", "test": "TestVerifC15", "inject": [BROKERRIG], "instrument": BROKERINSTR, "workers": 5},
+    ],
+}
